@@ -16,7 +16,13 @@ RULE = ("records = (write/read history, storage configuration); histories are dr
         "non-dividing, longer than the extent, all-ones; cache sizes 1..chunks+1 set initially and changed mid-history; "
         "whole-chunk writes/reads interleaved), chunked+{RLE,skphuff,deflate}, chunked+n-bit, compressed "
         "{RLE,skphuff,deflate}, n-bit, external file, unlimited+linked blocks with SDsetblocksize; GR images likewise "
-        "(chunked, chunked+compressed, compressed, external). Thorough tier: every chunk shape of every extent up to "
+        "(chunked, chunked+compressed, compressed, external). Parameter sweep in every tier: n-bit sign_ext x fill_one x "
+        "(start_bit, bit_len) (all 36 fields of the 8-bit types, 8 boundary fields of the 16/32-bit types) contiguous and "
+        "chunked with representable values compared EXACTLY (no projection of the library's output; the contiguous n-bit "
+        "dataset with the same parameters is the chunked one's baseline), deflate levels 0..9 and skphuff skip sizes "
+        "1,2,3,4,5,8 compressed and chunked+compressed for SD and GR; GR creation interlace x requested read interlace "
+        "(3 x 4 incl. 'never requested') for contiguous, chunked and chunked+compressed multi-component images with "
+        "GRwritechunk/GRreadchunk interleaved with GRwriteimage/GRreadimage of the same regions. Thorough tier: every chunk shape of every extent up to "
         "4x4x3 with cache sizes 1..chunks+1. Each record's output is compared with the array specification. "
         "Function level: static chunk arithmetic of hchunks.c and mcache_get/put/sync vs the Coq models on generated "
         "and exhaustive small cases. A record is non-trivial when it transfers data under a non-baseline layout; "
@@ -34,9 +40,12 @@ TRUSTED = ["Coq 8.16.1 kernel",
            "(tied by the function-level correspondence); int32 arithmetic assumed not to wrap (element and chunk byte "
            "sizes < 2^31, stated as hypotheses)"]
 ASSUMPTIONS = ["domain: fixed-size datasets (SDsetchunk rejects unlimited); n-bit compared on projected values with a "
-               "representable fill value; non-chunked compressed datasets accept only appends and whole rewrites "
+               "representable fill value (records whose written values are all representable are compared exactly, the others "
+               "only after projecting the library's values, which cannot see a wrong fill/sign flag); non-chunked compressed datasets accept only appends and whole rewrites "
                "(coders return FAIL otherwise: a reported refusal ends the comparison of that record, silent corruption "
-               "does not); GR histories use stride 1 (strided GR writes belong to C09)",
+               "does not); GR histories use stride 1 (strided GR writes belong to C09); GR write buffers are laid out in the "
+               "interlace GRgetiminfo reports (creation interlace in the creating session, pixel after a reopen), read "
+               "buffers in the interlace requested with GRreqimageil (pixel if never requested)",
                "GR chunk geometry follows GRsetchunk: the chunk layer views the pixel stream as an [xdim][ydim] array"]
 
 NTS = {20: (8, True), 21: (8, False), 22: (16, True), 23: (16, False), 24: (32, True), 25: (32, False), 5: (32, None),
